@@ -227,6 +227,18 @@ def parseChk (t : String) : Option Checker :=
     names.map fun ns => some (fun f => ns.contains f)
   else none
 
+def parseMappingsBody (b : String) : Option (List (Bytes × Bytes)) :=
+  (b.splitOn ",").mapM fun p =>
+    match p.splitOn ">" with
+    | [a, b] => do pure ((← Bytes.ofHex a), (← Bytes.ofHex b))
+    | _ => none
+
+/-- `m=<t1>;<t2>;…`: one `WithFieldOverrides` call per table, in order -/
+def parseMappingSeq (t : String) : Option (List (List (Bytes × Bytes))) :=
+  if t == "m=-" then some []
+  else if t.startsWith "m=" then ((t.drop 2).toString.splitOn ";").mapM fun b => parseMappingsBody b
+  else none
+
 def parseMappings (t : String) : Option (List (Bytes × Bytes)) :=
   if t == "m=-" then some []
   else if t.startsWith "m=" then
@@ -307,9 +319,9 @@ def parseScript (toks : List String) : Option Script :=
   match toks with
   | c :: m :: rest => do
     let chk ← parseChk c
-    let mp ← parseMappings m
+    let mps ← parseMappingSeq m
     let ops ← rest.mapM parseOp
-    let chk' := if mp.isEmpty then chk else withFieldOverrides chk mp
+    let chk' := mps.foldl withFieldOverrides chk
     pure { chk := chk', ops := ops }
   | _ => none
 
@@ -377,19 +389,16 @@ structure HGroup where
   pre : Bool
   g : Group
 
-/-- `@<p|w><^|.>[/<w>/..][~a>b,..]` -/
+/-- `@<p|w><^|.>[/<w>/..][~a>b,..][~c>a,..]…` (one `WithFieldOverrides` call per `~` table, in order) -/
 def parseHeader (tok : String) : Option HGroup :=
   match tok.toList with
   | '@' :: ph :: tg :: rest =>
     let body := String.ofList rest
     let (pt, ov) := match body.splitOn "~" with
-      | [a] => (a, none)
-      | [a, b] => (a, some b)
-      | _ => ("?", none)
+      | a :: tables => (a, tables)
+      | [] => ("?", [])
     let np := if pt.isEmpty then some [] else if pt.startsWith "/" then parsePath (pt.drop 1).toString else none
-    let ovr : Option (Option (List (Bytes × Bytes))) := match ov with
-      | none => some none
-      | some b => (parseMappings ("m=" ++ b)).map some
+    let ovr : Option (List (List (Bytes × Bytes))) := ov.mapM fun b => parseMappings ("m=" ++ b)
     match np, ovr with
     | some np, some ovr =>
       if (ph == 'p' || ph == 'w') && (tg == '^' || tg == '.') then
@@ -496,9 +505,7 @@ def stepH (toks : List String) : String :=
 def groupCheckers (chk : Checker) : List Group → List (Group × Checker)
   | [] => []
   | g :: r =>
-    let c := match g.ovr with
-      | none => chk
-      | some m => withFieldOverrides chk m
+    let c := g.ovr.foldl withFieldOverrides chk
     (g, c) :: groupCheckers (if g.parent then chk else c) r
 
 def isPrefixOf (a b : List Bytes) : Bool := a.length ≤ b.length && b.take a.length == a
